@@ -38,6 +38,8 @@
 #include <dlfcn.h>
 #include <errno.h>
 #include <netinet/in.h>
+#include <netinet/tcp.h>
+#include <sys/ioctl.h>
 #include <poll.h>
 #include <semaphore.h>
 #include <signal.h>
@@ -101,15 +103,18 @@ struct ConnRec {
   bool alive;              // ctor seen, dtor not yet
   int fd;                  // descriptor, -1 once closed
   int peerPort;
+  int peer;                // index of the peer on the other side, -1 unknown
+  uint64_t delivered;      // bytes handed to the message callback so far
   int holds;
   std::vector<TcpConnectionPtr> held;
-  ConnRec() : raw(NULL), alive(false), fd(-1), peerPort(0), holds(0) {}
+  ConnRec() : raw(NULL), alive(false), fd(-1), peerPort(0), peer(-1), delivered(0), holds(0) {}
 };
 static std::vector<ConnRec*> g_conns;              // index c = accept order
 static std::map<std::string, int> g_byName;
 static std::map<const void*, int> g_byPtr;         // live objects
 static std::map<int, int> g_byFd;                  // open descriptors of connections
 static int g_lastAccepted = -1;
+static int g_accepted = 0, g_connected = 0;   // newConnection calls / successful connect()s of the peers
 
 static TcpServer* g_srv = NULL;
 static EventLoop* g_base = NULL;
@@ -117,7 +122,13 @@ static int g_port = 0, g_listenFd = -1;
 static std::thread* g_baseThread = NULL;
 static bool g_quitDone = false;
 
-struct PeerRec { int fd; int port; };
+struct PeerRec {
+  int fd; int port;
+  int conn;            // server-side connection (accept order), -1 until accepted
+  uint64_t sent;       // bytes written so far
+  bool fin, rst;
+  PeerRec() : fd(-1), port(0), conn(-1), sent(0), fin(false), rst(false) {}
+};
 static std::vector<PeerRec> g_peers;
 
 // ---------------------------------------------------------------------------------------------------
@@ -303,6 +314,8 @@ static std::string mask(const std::string& in) {
   for (size_t i = 0; i < s.size();) {
     if (s.compare(i, 10, "127.0.0.1:") == 0) { o += "127.0.0.1:P"; i += 10; while (i < s.size() && isdigit(static_cast<unsigned char>(s[i]))) ++i; }
     else if (s.compare(i, 2, "0x") == 0) { o += "0xP"; i += 2; while (i < s.size() && isxdigit(static_cast<unsigned char>(s[i]))) ++i; }
+    else if (s.compare(i, 12, "threadId_ = ") == 0) { o += "threadId_ = T"; i += 12; while (i < s.size() && isdigit(static_cast<unsigned char>(s[i]))) ++i; }
+    else if (s.compare(i, 12, "thread id = ") == 0) { o += "thread id = T"; i += 12; while (i < s.size() && isdigit(static_cast<unsigned char>(s[i]))) ++i; }
     else o.push_back(s[i++]);
   }
   return o;
@@ -335,7 +348,11 @@ static void logHook(const char* msg, int len) {
     g_lastAccepted = c;
     emitf("< ev %d accept", t_thr);
     emitf("t %d new %s", c, thrName().c_str());
-    for (size_t i = 0; i < g_peers.size(); ++i) if (g_peers[i].port == r->peerPort && r->peerPort) emitf("# peer %zu %d", i, c);
+    g_accepted++;
+    for (size_t i = 0; i < g_peers.size(); ++i) {
+      // (a port number may come back after an RST: the accept queue is FIFO, so it is the first peer not yet matched)
+      if (g_peers[i].port == r->peerPort && r->peerPort && g_peers[i].conn < 0) { g_peers[i].conn = c; r->peer = static_cast<int>(i); emitf("# peer %zu %d", i, c); break; }
+    }
     return;
   }
   if ((p = line.find("TcpConnection::ctor[")) != std::string::npos) {
@@ -418,6 +435,7 @@ static void onMessage(const TcpConnectionPtr& conn, Buffer* buf, Timestamp) {
   emitf("< ev %d msg %d", t_thr, c);
   emitf("t %d msg %s", c, thrName().c_str());
   emitf("# bytes %d %zu", c, n);
+  if (c >= 0) { std::lock_guard<std::recursive_mutex> l(g_mu); g_conns[static_cast<size_t>(c)]->delivered += n; }
 }
 
 static void onThreadInit(EventLoop* loop) {
@@ -495,21 +513,40 @@ static TcpConnectionPtr lockConn(int c) {
   try { return g_conns[static_cast<size_t>(c)]->raw->shared_from_this(); } catch (const std::bad_weak_ptr&) { return TcpConnectionPtr(); }
 }
 
-static int serverFdOfPeer(size_t p) {
+// Loopback delivery is synchronous in practice (after connect()/write()/shutdown()/close() return, the server side
+// sees it), but nothing guarantees it (softirq work can be deferred under load).  So before any loop thread runs, and
+// after every peer action, the controller CONFIRMS on the server side's own descriptors that everything the peers
+// have done so far has arrived: accept queue length of the listening socket (tcp_info.tcpi_unacked of a LISTEN
+// socket), unread byte count (FIONREAD) = written - delivered, FIN (POLLRDHUP), RST (POLLERR/POLLHUP).  A safety net
+// of 2 s ends the run as INCONCLUSIVE; no verdict depends on the time it took.
+static bool settledOnce() {
   std::lock_guard<std::recursive_mutex> l(g_mu);
-  for (size_t c = 0; c < g_conns.size(); ++c) if (g_conns[c]->peerPort == g_peers[p].port && g_conns[c]->fd >= 0) return g_conns[c]->fd;
-  return -1;
+  if (g_srv && g_listenFd >= 0) {
+    struct tcp_info ti; socklen_t tl = sizeof ti; memset(&ti, 0, sizeof ti);
+    if (::getsockopt(g_listenFd, IPPROTO_TCP, TCP_INFO, &ti, &tl) == 0 && static_cast<int>(ti.tcpi_unacked) != g_connected - g_accepted) return false;
+  }
+  for (size_t p = 0; p < g_peers.size(); ++p) {
+    const PeerRec& pr = g_peers[p];
+    if (pr.conn < 0) continue;
+    const ConnRec& cr = *g_conns[static_cast<size_t>(pr.conn)];
+    if (cr.fd < 0) continue;
+    struct pollfd pf; pf.fd = cr.fd; pf.events = POLLIN | POLLRDHUP; pf.revents = 0;
+    ::poll(&pf, 1, 0);
+    if (pr.rst) { if (!(pf.revents & (POLLERR | POLLHUP))) return false; continue; }
+    int unread = 0;
+    if (::ioctl(cr.fd, FIONREAD, &unread) == 0 && static_cast<uint64_t>(unread) != pr.sent - cr.delivered) return false;
+    if (pr.fin && !(pf.revents & POLLRDHUP)) return false;
+  }
+  return true;
 }
 
-// cheap confirmation that what the peer did has reached the server side's descriptor (loopback is synchronous in
-// practice); only possible once the connection has been accepted and while its descriptor is open
-static void confirm(size_t p, short events, const char* what) {
-  int fd = serverFdOfPeer(p);
-  if (fd < 0) return;
-  struct pollfd pf; pf.fd = fd; pf.events = events; pf.revents = 0;
-  int r;
-  do { r = ::poll(&pf, 1, kSafetyMs); } while (r < 0 && errno == EINTR);
-  if (r <= 0) inconclusive(what);
+static void settle(const char* when) {
+  for (int i = 0; i < kSafetyMs * 10; ++i) {
+    if (settledOnce()) return;
+    usleep(100);
+  }
+  char b[160]; snprintf(b, sizeof b, "what the peers did has not reached the server side within the safety net (%s)", when);
+  inconclusive(b);
 }
 
 static void printSt() {
@@ -542,7 +579,7 @@ static void doOp(const std::vector<std::string>& w) {
   }
   if (g_L < 0) { emit("bad-op"); return; }
   if (op == "connect" && w.size() == 1) {
-    PeerRec pr; pr.fd = -1; pr.port = 0;
+    PeerRec pr;
     int fd = ::socket(AF_INET, SOCK_STREAM | SOCK_CLOEXEC, 0);
     struct timeval tv; tv.tv_sec = kSafetyMs / 1000; tv.tv_usec = 0;
     ::setsockopt(fd, SOL_SOCKET, SO_SNDTIMEO, &tv, sizeof tv);
@@ -557,46 +594,41 @@ static void doOp(const std::vector<std::string>& w) {
       struct sockaddr_in me; socklen_t ml = sizeof me;
       ::getsockname(fd, reinterpret_cast<struct sockaddr*>(&me), &ml);
       pr.fd = fd; pr.port = ntohs(me.sin_port);
-      if (g_srv && g_listenFd >= 0) {
-        struct pollfd pf; pf.fd = g_listenFd; pf.events = POLLIN; pf.revents = 0;
-        int r;
-        do { r = ::poll(&pf, 1, kSafetyMs); } while (r < 0 && errno == EINTR);
-        if (r <= 0) inconclusive("connect() returned but the listening socket is not readable");
-      }
+      g_connected++;
     }
     g_peers.push_back(pr);
+    settle("connect");
   } else if (op == "send" && w.size() == 3 && num(w[1], &a) && num(w[2], &b)) {
     if (static_cast<size_t>(a) >= g_peers.size() || g_peers[static_cast<size_t>(a)].fd < 0 || b > 65536) emit("# no-peer");
     else {
       std::string data(static_cast<size_t>(b), 'x');
       ssize_t n = ::send(g_peers[static_cast<size_t>(a)].fd, data.data(), data.size(), MSG_NOSIGNAL);
       if (n != static_cast<ssize_t>(b)) emitf("# send-failed %s", n < 0 ? strerror(errno) : "short");
-      else if (b > 0) confirm(static_cast<size_t>(a), POLLIN, "the bytes a peer wrote are not readable on the server side");
+      if (n > 0) g_peers[static_cast<size_t>(a)].sent += static_cast<uint64_t>(n);
+      settle("send");
     }
   } else if (op == "fin" && w.size() == 2 && num(w[1], &a)) {
     if (static_cast<size_t>(a) >= g_peers.size() || g_peers[static_cast<size_t>(a)].fd < 0) emit("# no-peer");
     else {
       ::shutdown(g_peers[static_cast<size_t>(a)].fd, SHUT_WR);
-      confirm(static_cast<size_t>(a), POLLIN | POLLRDHUP, "the FIN of a peer is not visible on the server side");
+      g_peers[static_cast<size_t>(a)].fin = true;
+      settle("fin");
     }
   } else if (op == "rst" && w.size() == 2 && num(w[1], &a)) {
     if (static_cast<size_t>(a) >= g_peers.size() || g_peers[static_cast<size_t>(a)].fd < 0) emit("# no-peer");
     else {
       struct linger lg; lg.l_onoff = 1; lg.l_linger = 0;
       ::setsockopt(g_peers[static_cast<size_t>(a)].fd, SOL_SOCKET, SO_LINGER, &lg, sizeof lg);
-      int sfd = serverFdOfPeer(static_cast<size_t>(a));
       ::close(g_peers[static_cast<size_t>(a)].fd);
       g_peers[static_cast<size_t>(a)].fd = -1;
-      if (sfd >= 0) {
-        struct pollfd pf; pf.fd = sfd; pf.events = POLLIN; pf.revents = 0;
-        int r;
-        do { r = ::poll(&pf, 1, kSafetyMs); } while (r < 0 && errno == EINTR);
-        if (r <= 0) inconclusive("the RST of a peer is not visible on the server side");
-      }
+      g_peers[static_cast<size_t>(a)].rst = true;
+      settle("rst");
     }
   } else if (op == "step" && w.size() == 2 && num(w[1], &a)) {
+    settle("step");
     if (a <= g_L) advance(a);
   } else if (op == "iter" && w.size() == 2 && num(w[1], &a)) {
+    settle("iter");
     if (a <= g_L) {
       while (advance(a)) { if (g_lt[a].at.load() == G_BEFOREPOLL) break; }
     }
@@ -617,6 +649,7 @@ static void doOp(const std::vector<std::string>& w) {
   } else if (op == "postDestroy" && w.size() == 1) {
     if (baseRunning() && g_srv) g_base->queueInLoop(&destroyServerFunctor);
   } else if (op == "quit" && w.size() == 1) {
+    settle("quit");
     doQuit();
   } else {
     emit("bad-op");
